@@ -51,7 +51,7 @@ static int32_t s_accept(qb_ipcs_connection_t *c, uid_t u, gid_t g) { (void)c; (v
 static void s_created(qb_ipcs_connection_t *c) { SC = c; }
 static int32_t s_closed(qb_ipcs_connection_t *c) { (void)c; return 0; }
 static void s_destroyed(qb_ipcs_connection_t *c) { if (c == SC) SC = NULL; }
-static int tail_phase, phaseA_rounds = 12, client_bursting, server_fc_on;
+static int tail_phase, phaseA_rounds = 12, client_bursting, server_fc_on, burst_stall_pending;
 static int32_t s_msg(qb_ipcs_connection_t *c, void *data, size_t size)
 {
 	int beh;
@@ -62,6 +62,9 @@ static int32_t s_msg(qb_ipcs_connection_t *c, void *data, size_t size)
 	}
 	check_payload(data, size, &RQ[rqh], 1, "message callback");
 	vp_log("  S: msg_process(request #%d, %zu bytes)", RQ[rqh].seq, size);
+	/* the first request of a burst finds the server busy for a while (it does not read its sockets meanwhile): the rest of
+	   the burst runs into full buffers with nobody draining them */
+	if (burst_stall_pending && size == HDR + 4) { struct timespec ts = { 0, 50000000 }; burst_stall_pending = 0; vp_log("  S: busy for 50 ms"); nanosleep(&ts, NULL); }
 	/* burst requests (their own length) are just consumed: a behaviour choice per message would be 3^8 */
 	beh = (drain_phase || size == HDR + 4) ? 1 : vp_choose(3, "msg_process behaviour");
 	if (beh == 0) {
@@ -167,7 +170,8 @@ static void client_main(void *arg)
 			/* against a server that has switched its request side off the client would (by design) retry until it is switched
 			   on again, which nobody does during the burst: not a history that ends */
 			if (server_fc_on) { vp_pruned(); vp_co_abort(); }
-			client_bursting = 1;
+			int use_send = vp_choose(2, "burst through send / sendv");
+			client_bursting = 1; burst_stall_pending = 1;
 			/* one canonical schedule inside the burst (the server runs whenever the client has to wait) */
 			W_free_choices = 0; vp_blocked_switch_cost = 1;
 			for (k = 0; k < 8; k++) {
@@ -175,8 +179,8 @@ static void client_main(void *arg)
 				fill(big, HDR + 4, seq, 1);
 				iov[0].iov_base = big; iov[0].iov_len = HDR; iov[1].iov_base = big + HDR; iov[1].iov_len = 4;
 				if_begin(&IF_RQ, seq, HDR + 4);
-				r = qb_ipcc_sendv(CC, iov, 2);
-				vp_log("  C: burst sendv(#%d, %zu) = %zd", seq, (size_t)HDR + 4, r);
+				r = use_send ? qb_ipcc_send(CC, big, HDR + 4) : qb_ipcc_sendv(CC, iov, 2);
+				vp_log("  C: burst %s(#%d, %zu) = %zd", use_send ? "send" : "sendv", seq, (size_t)HDR + 4, r);
 				if (r >= 0 && r != (ssize_t)(HDR + 4)) vp_fail("sendv of %zu bytes returned %zd", (size_t)HDR + 4, r);
 				if (if_end(&IF_RQ, r, "sendv")) { RQ[rqt] = IF_RQ.m; rqt++; }
 			}
@@ -250,7 +254,7 @@ static void run(void)
 					      .connection_closed = s_closed, .connection_destroyed = s_destroyed };
 	world_init_sched();
 	vp_blocked_switch_cost = 0;
-	rqh = rqt = rsh = rst = evh = evt = seqctr = client_done = drain_phase = tail_phase = client_bursting = server_fc_on = 0; SC = NULL; CC = NULL;
+	rqh = rqt = rsh = rst = evh = evt = seqctr = client_done = drain_phase = tail_phase = client_bursting = server_fc_on = burst_stall_pending = 0; SC = NULL; CC = NULL;
 	memset(&IF_RQ, 0, sizeof IF_RQ); memset(&IF_RS, 0, sizeof IF_RS); memset(&IF_EV, 0, sizeof IF_EV);
 	sactions_left = sactions_max;
 	transport = vp_choose(2, "transport");
